@@ -4,6 +4,8 @@ package main
 
 import (
 	"fmt"
+	"sort"
+	"strconv"
 	"go/constant"
 	"go/token"
 	"go/types"
@@ -93,6 +95,7 @@ type Engine struct {
 	extra       map[string]interface{}
 	lastPrefScore int
 	prefs       []*Term // soft preferences for counterexample models (ndPrefer)
+	siteIDs     map[ssa.Instruction]int
 	joinMerge   bool
 	rpoCache    map[*ssa.Function][]int
 	JoinMerges  int
@@ -307,6 +310,9 @@ func (e *Engine) CallFn(st *State, fn *ssa.Function, args []Value, in ssa.Instru
 	defer func() { e.curFn = e.curFn[:len(e.curFn)-1] }()
 	entryLen := len(st.pc)
 	entryNext := st.next
+	callerCur := st.cur
+	st.ctx = append(st.ctx, strconv.Itoa(e.callSiteID(in))+":"+callerCur)
+	st.cur = ""
 	fr := &Frame{fn: fn, locals: make(map[ssa.Value]Value, 32), block: fn.Blocks[0], loops: map[int]int{}}
 	for i, p := range fn.Params {
 		if i < len(args) {
@@ -335,6 +341,12 @@ func (e *Engine) CallFn(st *State, fn *ssa.Function, args []Value, in ssa.Instru
 				}
 			}
 		}
+	}
+	for i := range outs {
+		if n := len(outs[i].St.ctx); n > 0 {
+			outs[i].St.ctx = outs[i].St.ctx[:n-1:n-1]
+		}
+		outs[i].St.cur = callerCur
 	}
 	if e.fnStats != nil {
 		fs := e.fnStats[fn.String()]
@@ -423,6 +435,9 @@ func (e *Engine) callClosure(st *State, f VFunc, args []Value, in ssa.Instructio
 		unsupported("closure without body %s", fn)
 	}
 	entryLen := len(st.pc)
+	callerCur := st.cur
+	st.ctx = append(st.ctx, strconv.Itoa(e.callSiteID(in))+":"+callerCur)
+	st.cur = ""
 	fr := &Frame{fn: fn, locals: make(map[ssa.Value]Value, 32), block: fn.Blocks[0], loops: map[int]int{}}
 	for i, p := range fn.Params {
 		fr.locals[p] = args[i]
@@ -443,6 +458,12 @@ func (e *Engine) callClosure(st *State, f VFunc, args []Value, in ssa.Instructio
 	for len(work) > 0 {
 		it := e.nextItem(&work)
 		pc.run(it)
+	}
+	for i := range outs {
+		if n := len(outs[i].St.ctx); n > 0 {
+			outs[i].St.ctx = outs[i].St.ctx[:n-1:n-1]
+		}
+		outs[i].St.cur = callerCur
 	}
 	return e.mergeAll(entryLen, outs)
 }
@@ -758,6 +779,24 @@ func (pc *pathCtx) enterBlock(it *item) bool {
 		it.fr.loops[blk.Index] = 0
 	}
 	it.fr.loops[blk.Index]++
+	if isLoopHeader(blk) {
+		// loop-iteration signature of this activation (part of allocation identities)
+		var hs []int
+		for bi := range it.fr.loops {
+			if isLoopHeader(it.fr.fn.Blocks[bi]) {
+				hs = append(hs, bi)
+			}
+		}
+		sort.Ints(hs)
+		var sb strings.Builder
+		for _, bi := range hs {
+			sb.WriteString(strconv.Itoa(bi))
+			sb.WriteByte('.')
+			sb.WriteString(strconv.Itoa(it.fr.loops[bi]))
+			sb.WriteByte(',')
+		}
+		it.st.cur = sb.String()
+	}
 	if it.fr.loops[blk.Index] > e.cfg.Unroll+1 {
 		if e.lazyBranch && e.solver.Check(append(append([]*Term(nil), it.st.pc...), e.exclude...)) == Unsat {
 			e.PathsEnded++
@@ -1148,6 +1187,22 @@ func typeKey(t types.Type) string {
 		return "<nil>"
 	}
 	return types.TypeString(t, nil)
+}
+
+// callSiteID: a small integer per call instruction
+func (e *Engine) callSiteID(in ssa.Instruction) int {
+	if in == nil {
+		return 0
+	}
+	if e.siteIDs == nil {
+		e.siteIDs = map[ssa.Instruction]int{}
+	}
+	id, ok := e.siteIDs[in]
+	if !ok {
+		id = len(e.siteIDs) + 1
+		e.siteIDs[in] = id
+	}
+	return id
 }
 
 // delegates: library functions whose contract is written in Go in the harness package
